@@ -515,10 +515,10 @@ impl SeqGenCfg {
         SeqGenCfg {
             kinds: kinds.to_vec(),
             types: ElemTy::ALL.to_vec(),
-            max_n: 70_000,
+            max_n: 400_000,
             large_weight: 2,
             huff_cap: 1 << 20,
-            work_cap: 3_000_000,
+            work_cap: 4_000_000,
             min_large: 5_001,
             period_bias: None,
             min_max_symbol: None,
@@ -526,7 +526,7 @@ impl SeqGenCfg {
     }
     pub fn thorough(kinds: &[TreeKind]) -> Self {
         SeqGenCfg {
-            max_n: 600_000,
+            max_n: 1_310_000,
             large_weight: 3,
             work_cap: 20_000_000,
             ..Self::quick(kinds)
